@@ -52,6 +52,7 @@ def run_scenario(sc: dict[str, Any]) -> dict[str, Any]:
     saved_random = kpeering.random
     kpeering.random = _Jitter({o: sc['jit'][o] for o in sc['ops']})
     try:
+        sim.srv.rv = sc.get('rv0', 0)          # (histories that begin just below 100 / 1000: the decimal width of the version grows in mid-stream)
         pres = sim.srv.add_resource(ResDef('kopf.dev', 'v1', PEER, 'ClusterKopfPeering', namespaced=False))
         sim.srv.keep_bodies.add(PEER)
         sim.srv.create(pres, None, 'default', {})
@@ -137,6 +138,8 @@ def run_scenario(sc: dict[str, Any]) -> dict[str, Any]:
                 x['n'] += 1
                 if sim.obj(a[0]) is None: sim.create(a[0], {'x': x['n']})
                 else: sim.set_spec(a[0], x=x['n'])
+            elif opn == 'cut':       # the server ends the streams of the peering object: the operators reconnect from the version they remember
+                for w in [w_ for w_ in sim.srv.watches if w_.res.plural == PEER]: w.end('eof')
         for k in range(sc.get('nobj', 0)):
             sim.create(f'p{k}', {'x': 0})
         if sc.get('on_pause'):       # an adversarial schedule: changes that arrive k loop cycles after the operator decided to pause
@@ -175,7 +178,7 @@ def run_scenario(sc: dict[str, Any]) -> dict[str, Any]:
         if not stall and ops:       # the watchers of the handled kind (the ones a pause closes) as step traces of Streaming.tla
             from vf import streaming
             steps = streaming.segments(sim.recorder.events, streaming.conf_from_settings(next(iter(ops.values())).settings), sc['id'],
-                                       plurals={PLURAL}, pausable={PLURAL})
+                                       plurals=({PLURAL, PEER} if not (lag or plag) else {PLURAL}), pausable={PLURAL})      # (answers that take time are not in the step model)
         return {'id': sc['id'], 'conf': conf_of(sc), 'events': events, 'stall': stall, 'scenario': sc, 'steps': steps}
     finally:
         kpeering.random = saved_random
@@ -341,7 +344,14 @@ def gen_scenarios(seed: int, n: int) -> list[dict[str, Any]]:
         noseen = any(e[1] == 'ext' and e[3] == 'noseen' for e in env)
         end = t + (70 if any(e[1] == 'ext' and e[3] == 'nolife' for e in env) else 0) + max(life.values()) * 2 + 12
         lag = {rnd.choice(ops): 1} if rnd.random() < 0.15 else {}
-        out.append({'id': f'peer-{seed}-{k}', 'lag': lag, 'ops': ops, 'prio': dict(zip(ops, prios)), 'life': life, 'jit': jit, 'env': env, 'end': end,
+        r2 = random.Random(f'peer-cut-{seed}-{k}')      # (a stream of its own) the peering streams are cut; the version grows by a digit in mid-stream
+        extra: dict[str, Any] = {}
+        if r2.random() < 0.3:
+            extra['rv0'] = r2.choice([0, 90, 95, 990])
+            for _ in range(r2.randint(1, 3)):
+                env.append((r2.randint(5, max(6, t + 10)), 'cut'))
+            env.sort(key=lambda e: e[0])
+        out.append({**extra, 'id': f'peer-{seed}-{k}', 'lag': lag, 'ops': ops, 'prio': dict(zip(ops, prios)), 'life': life, 'jit': jit, 'env': env, 'end': end,
                     'hdur': rnd.choice([0, 0, 1, 3]), 'daemon': rnd.random() < 0.5, 'noseen': noseen,
                     'dmode': rnd.choice(['obey', 'cancel']), 'nobj': rnd.choice([0, 0, 3, 6])})
     return out
@@ -375,6 +385,12 @@ def crafted() -> list[dict[str, Any]]:
         out.append({'id': f'crafted-pause-syncbusy-{k}', 'ops': ['a'], 'prio': {'a': 1}, 'life': {'a': 30}, 'jit': {'a': 7},
                     'env': [(0, 'start', 'a'), (10, 'ext', 'x', 'live', 5, pause), (10 + pause + 14, 'edit', 'p0')], 'end': 70,
                     'hdur': 0, 'daemon': True, 'dmode': 'syncbusy', 'dbusy': busy, 'nobj': 3})
+    # the streams of the peering object are cut after the cluster's version has grown by a digit: the operators reconnect from the latest
+    # version they have seen (not from an older one: the records of that time would be judged by today's clock)
+    for k, (rv0, cuts) in enumerate(((94, (30, 50)), (993, (25, 26, 60)), (96, (20, 41, 62)))):
+        out.append({'id': f'crafted-rvwidth-{k}', 'ops': ['a', 'b'], 'prio': {'a': 1, 'b': 2}, 'life': {'a': 8, 'b': 8}, 'jit': {'a': 5, 'b': 5}, 'rv0': rv0,
+                    'env': [(0, 'start', 'a'), (3, 'start', 'b'), (12, 'edit', 'o1')] + [(t, 'cut') for t in cuts] + [(70, 'edit', 'o1')], 'end': 90,
+                    'hdur': 0, 'daemon': False})
     # ... and changes that arrive k loop cycles after the pause was decided (events that sneak into the workers on pausing)
     for k in (0, 1, 2, 3, 4, 6, 8, 12):
         out.append({'id': f'crafted-pause-sneak-{k}', 'ops': ['a', 'b'], 'prio': {'a': 1, 'b': 2}, 'life': {'a': 12, 'b': 12}, 'jit': {'a': 7, 'b': 7},
